@@ -1,42 +1,54 @@
 -------------------------- MODULE MC_SharedProgram --------------------------
-(* All interleavings of NProc interpreters over one shared program, for     *)
-(* every program body of at most MaxLen instructions over Menu.             *)
+(* All interleavings of NProc processes over one shared program, each        *)
+(* executing it MaxRuns times (every execution with an interpreter of its    *)
+(* own), for every program body of at most MaxLen instructions over Menu.    *)
 EXTENDS SharedProgram
 
 CONSTANTS MaxLen
 
+\* regular expression 3 (/1|10/) is used both as the compiled literal ("match") and, with the same source, on the
+\* run-time path ("rlen"), where leftmost-longest matters
 Menu == { [op |-> "set", g |-> 1, k |-> 3], [op |-> "set", g |-> 2, k |-> 4],
           [op |-> "add", g |-> 1, k |-> 2], [op |-> "add", g |-> 2, k |-> 3],
-          [op |-> "match", g |-> 1, k |-> 1], [op |-> "match", g |-> 2, k |-> 2],
-          [op |-> "call", g |-> 1, k |-> 0], [op |-> "print", g |-> 1, k |-> 0] }
+          [op |-> "match", g |-> 1, k |-> 1], [op |-> "match", g |-> 2, k |-> 3],
+          [op |-> "rlen", g |-> 2, k |-> 3],
+          [op |-> "call", g |-> 1, k |-> 0], [op |-> "print", g |-> 1, k |-> 0],
+          [op |-> "rand", g |-> 1, k |-> 0], [op |-> "srand", g |-> 1, k |-> 3] }
 
 RECURSIVE Bodies(_)
 Bodies(n) == IF n = 0 THEN {<<>>} ELSE Bodies(n - 1) \cup {Append(b, m) : b \in {c \in Bodies(n - 1) : Len(c) = n - 1}, m \in Menu}
 
-VARIABLES body, program, interp, acc
-vars == <<body, program, interp, acc>>
+VARIABLES body, program, interp, runs, spare, acc
+vars == <<body, program, interp, runs, spare, acc>>
 
 NoAcc == [p |-> 0, reads |-> {}, writes |-> {}]
 Init ==
   /\ body \in Bodies(MaxLen)
   /\ program = MkProgram(body)
   /\ interp = [i \in 1..NProc |-> NoInterp]
+  /\ runs = [i \in 1..NProc |-> 0]
+  /\ spare = NoInterp
   /\ acc = NoAcc
 
-\* interp.New(program): allocate private state (sizes are read from the program's tables)
+\* the next execution of process i begins -- interp.New(program) or the allocation inside interp.ExecProgram:
+\* private state (sizes are read from the program's tables); the previous interpreter of the process is dropped
 New(i) ==
-  /\ interp[i].status = "none"
-  /\ interp' = [interp EXCEPT ![i] = NewInterp]
-  /\ acc' = [p |-> i, reads |-> {PLoc("sizes", 0)}, writes |-> {ILoc(i, "g", 1), ILoc(i, "g", 2), ILoc(i, "pc", 0), ILoc(i, "out", 0)}]
+  /\ interp[i].status \in {"none", "done"} /\ runs[i] < MaxRuns
+  /\ interp' = [interp EXCEPT ![i] = StartInterp(spare)]
+  /\ runs' = [runs EXCEPT ![i] = @ + 1]
+  /\ spare' = IF ReuseInterp THEN NoInterp ELSE spare
+  /\ acc' = [p |-> i, reads |-> {PLoc("sizes", 0)} \cup (IF ReuseInterp /\ spare.status = "done" THEN {<<"pool", 0>>} ELSE {}),
+             writes |-> {ILoc(i, "g", 1), ILoc(i, "g", 2), ILoc(i, "pc", 0), ILoc(i, "out", 0), ILoc(i, "rc", 0), ILoc(i, "rng", 0)}]
   /\ UNCHANGED <<body, program>>
-\* one VM instruction of interpreter i
+\* one VM instruction of the current execution of process i
 Step(i) ==
   /\ interp[i].status = "run"
   /\ LET e == Exec1(program, interp[i], i)
      IN /\ interp' = [interp EXCEPT ![i] = e.it]
         /\ program' = e.pr
         /\ acc' = [p |-> i, reads |-> e.reads, writes |-> e.writes]
-  /\ UNCHANGED body
+        /\ spare' = IF ReuseInterp /\ e.it.status = "done" THEN e.it ELSE spare
+  /\ UNCHANGED <<body, runs>>
 Next == \E i \in 1..NProc : New(i) \/ Step(i)
 Spec == Init /\ [][Next]_vars
 
@@ -44,4 +56,7 @@ Immutable     == [][program' = program]_vars
 NoSharedWrite == NoSharedWriteP(acc)
 NoForeignRead == NoForeignReadP(acc)
 Equivalent    == EquivalentP(body, interp)
+\* what run-time compilation leaves behind stays in the interpreter: the program's regular expressions are the
+\* parser's, leftmost-longest, before and after every execution
+RegexesAsCompiled == \A r \in 1..NumRegex : program.regexes[r] = [src |-> r, longest |-> TRUE]
 =============================================================================
